@@ -31,12 +31,14 @@ def check(prog, run):
     ex = prog.func(DEV_MOD, "SCSIDevice", "execute")
     file = prog.rel(ex.module)
     npaths = 0
-    for detect in (True, False):
+    for detect, rw in ((True, False), (True, True), (False, False)):
         si = StandIn(prog, check_condition="never", close_fails="fork", stat_fails="fork").install()
         try:
-            def t(detect=detect):
+            def t(detect=detect, rw=rw):
+                si.vanished = False
                 dev = make_scsi_device(prog)
                 dev.attrs["_detect_replugged"] = detect
+                dev.attrs["_read_write"] = rw
                 old = dev.attrs["_file"]
                 old_ino = dev.attrs["_ino"]
                 cmd, cdb, dout, din = marker_cmd(prog, 0, 8)
@@ -71,10 +73,12 @@ def check(prog, run):
                 else:
                     run.ok("detection-off-keeps-handle", "SCSIDevice.execute detect=False")
                 continue
-            if stat_failed and not closes and not opens:
+            if stat_failed:
+                # the node at the device path is gone (os.stat fails): that must surface as an error, whatever the open mode
                 if p.returned or sg:
                     run.violation("vanished-node-is-an-error", "SCSIDevice.execute vanished node",
-                                  "os.stat fails (node vanished) but execute %s" % ("returns normally" if p.returned else "still sends the command"), *where)
+                                  "os.stat fails (node vanished, read_write=%s) but execute %s%s" % (rw, "returns normally" if p.returned else "still sends the command",
+                                  "; open() with a creating mode made a new plain file at the device path" if opens else ""), *where)
                 else:
                     run.ok("vanished-node-is-an-error", "SCSIDevice.execute vanished node", {"raises": p.raised.describe()[:60]})
                 continue
